@@ -33,6 +33,12 @@ func NewBadSmellListener() *BadSmellListener {
 	methodCalls = nil
 	currentClzImplements = nil
 	currentClzExtends = ""
+	currentClzType = ""
+	imports = nil
+	fields = make(map[string]string)
+	localVars = make(map[string]string)
+	formalParameters = make(map[string]string)
+	currentClassBs = bs_domain.ClassBadSmellInfo{}
 	return &BadSmellListener{}
 }
 
